@@ -97,13 +97,14 @@ impl MemoryCacheEntryInner {
 /// optimized for NGDP workload patterns.
 pub struct MemoryCache<K: CacheKey> {
     /// The main storage using DashMap for concurrent access
-    storage: DashMap<K, Arc<MemoryCacheEntryInner>>,
+    /// (shared with the background cleanup task)
+    storage: Arc<DashMap<K, Arc<MemoryCacheEntryInner>>>,
     /// Cache configuration
     config: MemoryCacheConfig,
     /// Current number of entries (atomic for fast access)
-    entry_count: AtomicUsize,
+    entry_count: Arc<AtomicUsize>,
     /// Current memory usage in bytes (atomic for fast access)
-    memory_usage: AtomicU64,
+    memory_usage: Arc<AtomicU64>,
     /// High-performance metrics collector
     metrics: Arc<AtomicCacheMetrics>,
     /// Background cleanup task handle
@@ -117,14 +118,14 @@ impl<K: CacheKey + 'static> MemoryCache<K> {
             .validate()
             .map_err(CacheError::InvalidConfiguration)?;
 
-        let storage = DashMap::with_capacity(config.max_entries.min(1024));
+        let storage = Arc::new(DashMap::with_capacity(config.max_entries.min(1024)));
         let metrics = Arc::new(AtomicCacheMetrics::new());
 
         Ok(Self {
             storage,
             config,
-            entry_count: AtomicUsize::new(0),
-            memory_usage: AtomicU64::new(0),
+            entry_count: Arc::new(AtomicUsize::new(0)),
+            memory_usage: Arc::new(AtomicU64::new(0)),
             metrics,
             cleanup_handle: None,
         })
@@ -144,7 +145,10 @@ impl<K: CacheKey + 'static> MemoryCache<K> {
 
     /// Start background cleanup task for expired entries
     fn start_cleanup_task(&mut self, cleanup_interval: Duration) {
-        let storage = self.storage.clone();
+        // The task works on the cache's own map and counters
+        let storage = Arc::clone(&self.storage);
+        let entry_count = Arc::clone(&self.entry_count);
+        let memory_usage = Arc::clone(&self.memory_usage);
         let metrics = Arc::clone(&self.metrics);
 
         let handle = tokio::spawn(async move {
@@ -152,10 +156,6 @@ impl<K: CacheKey + 'static> MemoryCache<K> {
 
             loop {
                 interval.tick().await;
-
-                let _start_time = Instant::now();
-                let mut removed_count = 0;
-                let mut freed_bytes = 0;
 
                 // Collect expired keys
                 let mut expired_keys = Vec::new();
@@ -165,18 +165,13 @@ impl<K: CacheKey + 'static> MemoryCache<K> {
                     }
                 }
 
-                // Remove expired entries
+                // Remove the entries that are still expired: a concurrent put may
+                // have replaced one since it was collected
                 for key in expired_keys {
-                    if let Some((_, entry)) = storage.remove(&key) {
-                        removed_count += 1;
-                        freed_bytes += entry.size_bytes;
-                    }
-                }
-
-                if removed_count > 0 {
-                    // Update metrics for cleanup
-                    for _ in 0..removed_count {
-                        metrics.record_eviction(freed_bytes / removed_count);
+                    if let Some((_, entry)) = storage.remove_if(&key, |_, e| e.is_expired()) {
+                        entry_count.fetch_sub(1, Ordering::Relaxed);
+                        memory_usage.fetch_sub(entry.size_bytes as u64, Ordering::Relaxed);
+                        metrics.record_expiration(entry.size_bytes);
                     }
                 }
             }
